@@ -102,14 +102,14 @@ func cmdDump(args []string) {
 		return
 	}
 	for _, lm := range w.lemmas {
-		if *fn == "" || strings.Contains(lm.Name, *fn) {
+		if *fn == "" || strings.Contains(lm.PkgPath+".lemma."+lm.Name, *fn) {
 			t := time.Now()
 			r := w.verifyLemma(lm)
 			r.Secs = time.Since(t).Seconds()
 			rs = append(rs, r)
 		}
 	}
-	discharge(rs, 16, 3*time.Second, 20*time.Second)
+	discharge(rs, 16, 3*time.Second, 60*time.Second)
 	for _, r := range rs {
 		fmt.Printf("== %s (%.2fs gen) err=%q\n", r.Name, r.Secs, r.Err)
 		for k, n := range r.Abstracts {
